@@ -10,7 +10,7 @@ from ..cfg import no_exc
 from ..report import Registry, sub, chain
 from ._helpers_rules_c import (
     PathSense, attr_store_sites, both, call_nodes, calls_ending, calm, cut_edges, is_false, is_true,
-    kw_or_pos, must_pass, quiet, rcfg, test_edges,
+    kw_or_pos, must_pass, own_calls as _own_calls, quiet, rcfg, test_edges,
 )
 from ._helpers_rob_a import normal_form, transitive_owners
 from .c24 import finalize_fairy_reset
@@ -389,8 +389,10 @@ def _clock_calls(node):
             if not c.args and not c.keywords and (call_name(c) or "").split(".")[0] in ("time", "_time")}
 
 
-@R.rule("C26-R7", floor=5, template="T-PATH",
-        desc="generation stamp: _ConnectionRecord.starttime is written only by __init__ (0) and __connect; in "
+@R.rule("C26-R7", floor=7, template="T-PATH/T-OWN",
+        desc="generation stamp: _ConnectionRecord.starttime is written only by __init__ (0) and __connect; nothing that "
+             "can (transitively) write it runs between the observation of a fault and the read of rec.starttime by "
+             "Pool._invalidate; in "
              "__connect the clock is read into starttime BEFORE the creator is invoked and not again afterwards (a "
              "connect that overlaps a pool invalidation must count as older than it); starttime, "
              "Pool._invalidate_time and _soft_invalidate_time are read from the same clock")
@@ -468,6 +470,94 @@ def r7(ctx):
               "the timestamps compared by get_connection() come from different clocks: "
               + "; ".join(f"{'/'.join(sorted(k))}: {', '.join(v)}" for k, v in sorted(clocks.items(), key=lambda kv: sorted(kv[0]))),
               "one clock: " + "/".join(sorted(next(iter(clocks)))) + f" at {sum(len(v) for v in clocks.values())} sites", fc.loc)
+    _generation_read_before_restamp(ctx)
+
+
+# Pool._invalidate() decides whether to start a new pool generation by comparing its timestamp with the starttime
+# of the record whose connection failed (`self._invalidate_time < rec.starttime`).  That comparison is only
+# meaningful for the stamp the record had WHEN THE FAULT WAS OBSERVED: between the observation (the entry of the
+# handler / function that calls pool._invalidate) and the read of rec.starttime inside Pool._invalidate nothing may
+# run that can re-stamp a record.  What can re-stamp: every function of pool/base.py that stores `.starttime` or
+# calls (by method name / constructor, transitively) one that does.  (Together with the who-may-write table above:
+# today only __connect / __init__ and what leads to them -- get_connection(), checkout() ...; a `starttime = 0` in
+# invalidate() makes invalidate() a re-stamper and `record.invalidate(e)` in front of `pool._invalidate(fairy, e)` in
+# _ConnectionFairy._checkout a violation of the order as well.)
+def _restampers(ctx):
+    m = ctx.index.module(POOL)
+    funcs = [f for f in ctx.index.all_functions(m) if not f.type_only and not f.is_overload]
+    hot = {f.key for f in funcs if any(d.endswith(".starttime") for d, t, st in attr_stores(f.node))}
+    ctx.require(hot, "no function of pool/base.py stores `.starttime`")
+
+    def hot_names():
+        names = {f.name for f in funcs if f.key in hot and f.name != "__init__"}
+        names |= {f.cls.name for f in funcs if f.key in hot and f.name == "__init__" and f.cls is not None}
+        return names
+    changed = True
+    while changed:
+        changed = False
+        names = hot_names()
+        for f in funcs:
+            if f.key in hot:
+                continue
+            for c in calls_in(f.node):
+                if _restamping_call(c, names):
+                    hot.add(f.key)
+                    changed = True
+                    break
+    return hot_names()
+
+
+def _restamping_call(c, names):
+    nm = call_name(c) or ""
+    recv, _, last = nm.rpartition(".")
+    if recv.endswith("dispatch") or recv.endswith("logger") or recv.split(".")[0] in ("util", "log", "event"):
+        return False
+    return last in names
+
+
+def _generation_read_before_restamp(ctx):
+    names = _restampers(ctx)
+    m = ctx.index.module(POOL)
+    n = 0
+    for f0 in ctx.index.all_functions(m):
+        if f0.type_only or f0.is_overload:
+            continue
+        is_pool_invalidate = f0.key == f"{POOL}::Pool._invalidate"
+        if not is_pool_invalidate and not any((call_name(c) or "").endswith("._invalidate") for c in calls_in(f0.node)):
+            continue
+        f = _nf(ctx, f0.key, "_invalidate", *sorted(names))
+        g = ctx.cfg(f)
+        if is_pool_invalidate:
+            # the read itself: the test that compares rec.starttime
+            reads = [x.id for x in g.nodes if x.kind == "test" and "starttime" in _attrs(x.stmt.test)]
+            ctx.require(reads, "Pool._invalidate no longer compares the record's starttime")
+            starts = [g.entry]
+        else:
+            reads = call_nodes(g, lambda nm, c: nm.endswith("._invalidate") and nm.rsplit(".", 2)[-2] in ("pool", "_pool", "self"))
+            if not reads:
+                continue
+            # the fault was observed where the innermost handler that leads to the call begins (else: function entry)
+            handlers = [x.id for x in g.nodes if x.kind == "handler" and set(reads) & g.reachable([x.id], edge_ok=no_exc)]
+            inner = [h for h in handlers if not any(h2 != h and h2 in g.reachable([h], edge_ok=no_exc) for h2 in handlers)]
+            starts = inner or [g.entry]
+        region = g.reachable(starts, edge_ok=no_exc)
+        bad, w = [], None
+        for x in g.nodes:
+            if x.id not in region or x.id in reads:
+                continue
+            cs = [c for c in _own_calls(x) if _restamping_call(c, names)]
+            if cs and set(reads) & g.reachable([x.id], edge_ok=no_exc, include_starts=False):
+                bad.append(f"line {cs[0].lineno}: `{unparse(cs[0].func)}(...)`")
+                w = w or g.witness(starts, reads, edge_ok=no_exc)
+        n += 1
+        ctx.check(not bad, f.key + ":generation-read-before-restamp",
+                  "between the observation of the fault and the comparison `_invalidate_time < rec.starttime` of "
+                  "Pool._invalidate a call runs that can re-stamp / reset the record's starttime -- "
+                  + "; ".join(sorted(set(bad))) + ": the pool generation is judged against the new stamp, so the pool "
+                  "invalidation timestamp may never be set and idle connections that predate the fault are handed out again",
+                  "nothing that can write a record's starttime runs before the pool-level invalidation reads it", f.loc,
+                  g.describe_path(w) if w else None)
+    ctx.require(n >= 2, "expected Pool._invalidate and at least one caller of it in pool/base.py")
 
 
 # ---------------------------------------------------------------------- self-test battery
@@ -620,3 +710,36 @@ R.mutant("benign-rob-connect-stamp-through-local", POOL,
                      "            self.dbapi_connection = connection = pool._invoke_creator(self)\n"), None)
 R.mutant("rob-connect-stamp-local-read-after-creator", POOL,
          sub(_STAMP, "            self.dbapi_connection = connection = pool._invoke_creator(self)\n            now = time.time()\n            self.starttime = now\n"), "C26-R7")
+
+# ---------------------------------------------------------------------- str2-j: round-2 seeds (C26_3, C26_4)
+# seed 3: the handler that gives the overflow slot back narrowed to `except Exception` (same edit as seed C29_1;
+# C25-R2 carries the twin of this input)
+R.mutant("seed3-do-get-undo-handler-except-exception", "pool/impl.py",
+         sub("            except:\n                with util.safe_reraise():\n                    self._dec_overflow()\n                raise\n",
+             "            except Exception:\n                with util.safe_reraise():\n                    self._dec_overflow()\n                raise\n"), "C26-R5")
+R.mutant("benign-do-get-undo-handler-baseexception", "pool/impl.py",
+         sub("            except:\n                with util.safe_reraise():\n                    self._dec_overflow()\n                raise\n",
+             "            except BaseException:\n                self._dec_overflow()\n                raise\n"), None)
+# seed 4: a hard invalidate resets the generation stamp; Pool._invalidate, called right after it on the pre-ping path,
+# compares against the reset stamp and never starts a new pool generation
+R.mutant("seed4-invalidate-resets-starttime", POOL,
+         sub("            self.__close(terminate=True)\n            self.dbapi_connection = None\n\n    def get_connection",
+             "            self.__close(terminate=True)\n            self.dbapi_connection = None\n            self.starttime = 0\n\n    def get_connection"), "C26-R7")
+R.mutant("close-resets-starttime", POOL,
+         sub("            self.dbapi_connection, terminate=terminate\n        )\n        self.dbapi_connection = None\n",
+             "            self.dbapi_connection, terminate=terminate\n        )\n        self.dbapi_connection = None\n        self.starttime = 0\n"), "C26-R7")
+_DISC = "                    fairy._connection_record.invalidate(e)\n                    pool._invalidate(fairy, e, _checkin=False)\n"
+# pool generation first, then the record: the order the engine-level path uses; same behaviour
+R.mutant("benign-checkout-pool-invalidate-first", POOL,
+         sub(_DISC, "                    pool._invalidate(fairy, e, _checkin=False)\n                    fairy._connection_record.invalidate(e)\n"), None)
+R.mutant("benign-checkout-invalidate-generation-helper", POOL,
+         chain(sub(_DISC, "                    cls._invalidate_generation(pool, fairy, e)\n"),
+               sub("    def _checkout_existing(self) -> _ConnectionFairy:\n",
+                   "    @staticmethod\n    def _invalidate_generation(pool: Pool, fairy: _ConnectionFairy, err: BaseException) -> None:\n"
+                   "        fairy._connection_record.invalidate(err)\n        pool._invalidate(fairy, err, _checkin=False)\n\n"
+                   "    def _checkout_existing(self) -> _ConnectionFairy:\n")), None)
+# the retry (which re-stamps the record through __connect) moved in front of the pool-level invalidation
+R.mutant("checkout-reconnects-before-pool-invalidate", POOL,
+         chain(sub(_DISC, "                    fairy._connection_record.invalidate(e)\n"
+                          "                    fairy.dbapi_connection = fairy._connection_record.get_connection()\n"
+                          "                    pool._invalidate(fairy, e, _checkin=False)\n")), "C26-R7")
